@@ -204,9 +204,14 @@ def r16_2(cx):
     # the lookup both find and remove rely on is one binary search over all the items, by key
     fi = cx.prog.fn(SD + '::find_index')
     r = fi.local_expr(0, []).strip()
-    okb = is_call(r, 'Result::ok') and is_call(r.args[0], 'binary_search_by') and any(m.is_items(n) for n in r.args[0].strip().args[0].walk()) \
-        and not any(c.op.rsplit('::', 1)[-1] in ('index', 'split_at', 'get', 'rev', 'skip', 'take') for c in r.args[0].strip().args[0].calls())
-    cl = closure_of(cx.prog, r.args[0].strip().args[1]) if okb else None
+    # `.ok()` or the same thing spelled as a match: the index returned is the Ok payload of that one search, untouched
+    bss = list(r.calls('binary_search_by'))
+    bs = bss[0] if len(bss) == 1 else None
+    okb = bs is not None and any(m.is_items(n) for n in bs.args[0].walk()) \
+        and not any(c.op.rsplit('::', 1)[-1] in ('index', 'split_at', 'get', 'rev', 'skip', 'take') for c in bs.args[0].calls()) \
+        and not any(n.kind == 'binop' for n in r.walk()) and all(c.op.rsplit('::', 1)[-1] in ('ok', 'binary_search_by', 'deref', 'branch') for c in r.calls()) \
+        and len(list(fi.calls())) <= 3
+    cl = closure_of(cx.prog, bs.args[1]) if okb else None
     if okb and cl is not None:
         cr = cl.local_expr(0, []).strip()
         okb = cr.kind == 'call' and cr.op.endswith('::cmp') and cr.args[1].has_call('extract_key') and 2 in cr.args[1].params()
